@@ -194,6 +194,13 @@ def eval_sdeint(model, extra_state, extra=True, which=("torchsde/_core/sdeint.py
     fi = model.func(*which)
     hooks = SdeintHooks()
     if logqp:
+        # parse_return itself is decided entry by entry by R18.6 (C18, also run by C13); here it is opaque
+        def on_call(interp, callee, args, kwargs, node, f2, _orig=hooks.on_call):
+            cfi = getattr(callee, "fi", None)
+            if cfi is not None and cfi.name == "parse_return":
+                return ("PARSED", args, kwargs)
+            return _orig(interp, callee, args, kwargs, node, f2)
+        hooks.on_call = on_call
         # shape-level meaning of what parse_return does to the solution when it separates the log-ratio channel
         def tensor_method(interp, recv, name, args, kwargs, node, f2, _orig=hooks.tensor_method):
             if name == "split":
@@ -267,11 +274,6 @@ def r13_2(ctx):
         rep.check(ok_in, "R13.2", astq.loc(fi_q), f"{fi_q.key}::R13.2::resume::logqp",
                   f"{which[1]}(logqp=True, extra_solver_state=E) hands the solver `{shown}` (init calls: {len(hooks_q.init_calls)}): "
                   f"the supplied state must reach the stepping loop unchanged", "extra_solver_state reaches integrate unchanged")
-        ok_out = isinstance(out_q, tuple) and len(out_q) == 3 and isinstance(out_q[2], (tuple, list)) and len(out_q[2]) == 1 \
-            and isinstance(out_q[2][0], Rat) and nf.equal(out_q[2][0], nf.sym("EXTRA_OUT"))
-        rep.check(ok_out, "R13.2", astq.loc(fi_q), f"{fi_q.key}::R13.2::returns-extra::logqp",
-                  f"{which[1]}(logqp=True, extra=True) returns the extra state `{out_q[2] if isinstance(out_q, tuple) and len(out_q) == 3 else out_q}`; "
-                  f"it must be the loop's final extra state as it is", "returns integrate's extra")
     ok = isinstance(out, tuple) and len(out) == 2 and nf.equal(out[0], nf.sym("YS_OUT")) and \
         isinstance(out[1], tuple) and len(out[1]) == 1 and nf.equal(out[1][0], nf.sym("EXTRA_OUT"))
     rep.check(ok, "R13.2", astq.loc(fi), f"{fi.key}::R13.2::returns-extra",
@@ -389,3 +391,5 @@ def run(ctx):
     # hidden state by mutation: a step must not update, in place, tensors it was handed
     from . import c05
     ctx.guard(c05.r05_5_solvers)
+    from . import c18
+    ctx.guard(c18.r18_6)          # ... and parse_return hands the solver state back unchanged, with and without logqp
